@@ -47,6 +47,22 @@ def _check(prop, tier, seed, replay, work, t0):
         states += r["distinct"]
         trans += r["generated"]
         druns.append({"rename": rn, "failover": fo, "dbs": dbs, "distinct": r["distinct"]})
+    # the stale-entry collector next to fail-overs, re-keying, ageing and unreachable source shards (StaleGC.tla): the code's
+    # design keeps every live position; skipping unreachable nodes and moving an entry with its old stamp are refuted
+    gcfg = ("SPECIFICATION Spec\nCONSTANTS\n  Shards = {s1, s2}\n  SkipUnreachable = %s\n  FreshStamp = %s\n  MaxFailovers = 1\n  MaxPasses = %d\n"
+            "INVARIANTS TypeOK\nPROPERTIES C17_LivePositionKept\nCHECK_DEADLOCK FALSE\n")
+    gspec = [os.path.join(SPEC, "StaleGC.tla")]
+    passes = 2 if tier == "quick" else 3
+    r = vlib.tlc(gspec, "StaleGC", gcfg % ("FALSE", "TRUE", passes), work, timeout=3000, name="StaleGCD")
+    vlib.tlc_ok(r, "StaleGC.tla (the code's design)")
+    states += r["distinct"]
+    trans += r["generated"]
+    druns.append({"spec": "StaleGC", "SkipUnreachable": False, "FreshStamp": True, "MaxPasses": passes, "distinct": r["distinct"], "result": "C17_LivePositionKept holds"})
+    for skip, fresh, what in (("TRUE", "TRUE", "unreachable source nodes skipped (seeds C02-f / C07-f)"), ("FALSE", "FALSE", "moved entry keeps its old stamp (seed C17-e)")):
+        r = vlib.tlc(gspec, "StaleGC", gcfg % (skip, fresh, 2), work, timeout=3000, name="StaleGCCtl")
+        if "C17_LivePositionKept" not in " ".join(x for t in r["property_violated"] for x in t):
+            raise vlib.HarnessError("StaleGC.tla, %s: C17_LivePositionKept was expected to be refuted (control)" % what)
+        druns.append({"spec": "StaleGC", "SkipUnreachable": skip == "TRUE", "FreshStamp": fresh == "TRUE", "result": "refuted (control): " + what})
     shards = vlib.NCPU
     n, reps = (96, 4) if tier == "quick" else (640, 8)
     for i in range(shards):
